@@ -908,6 +908,12 @@ ComponentPtr flattenComponent(const ComponentEntityPtr &parent, ComponentPtr &co
             for (size_t j = 0; j < placeholderVariable->equivalentVariableCount(); ++j) {
                 auto localModelVariable = placeholderVariable->equivalentVariable(j);
                 auto importedComponentVariable = importedComponentCopy->variable(placeholderVariable->name());
+                if ((importedComponentVariable == nullptr) && importedComponentCopy->isImport()) {
+                    // The imported component is itself an import, so hand the placeholder
+                    // variable over to it, to be exchanged when that import is flattened.
+                    importedComponentVariable = Variable::create(placeholderVariable->name());
+                    importedComponentCopy->addVariable(importedComponentVariable);
+                }
                 Variable::addEquivalence(importedComponentVariable, localModelVariable);
             }
         }
